@@ -157,6 +157,13 @@ def forward_bound_accumulator(ctx: Ctx, rid: str):
                    key=key_of(rid, sched, None, "fwd gap unconditional"))
 
 
+def run_extra(ctx: Ctx):
+    # ---------------------------------------------------------------- R04.12 answers never come from state that outlives the question
+    from .common import process_state_rule
+    process_state_rule(ctx, "R04.12", [ctx.repo.func("Project.schedule"), ctx.repo.func("ProjectFileParser.parse")],
+                       "a gap or a predecessor list is answered from another edge's, scenario's or project's value")
+
+
 def run(ctx: Ctx):
     repo = ctx.repo
     sched = repo.func("TaskScenario.schedule")
